@@ -4,7 +4,6 @@ import (
 	"bytes"
 	"fmt"
 	"testing"
-	"testing/synctest"
 	"time"
 
 	"pgregory.net/rapid"
@@ -41,7 +40,7 @@ func TestC01(t *testing.T) {
 		var labels []string
 		var canon string
 		nt := false
-		synctest.Test(t, func(t *testing.T) {
+		bubble(t, func() {
 			time.Sleep(30 * 365 * 24 * time.Hour) // virtual clock to ~2030
 			master := rapid.SliceOfN(rapid.Byte(), 16, 16).Draw(rt, "masterKey")
 			l := newLab(func(f string, a ...any) { fail = fmt.Sprintf(f, a...) }, labCfg{master: master})
